@@ -125,6 +125,10 @@ def run(ctx, focus="C05"):
             # when those states are correlated in the prior
             rn = gen.fresh_names(ctx.rng, 2, {x.name for x in d.all_symbols()} | {r for rd in d.sensors.values() for r in rd})
             d.sensors["direct9"] = {rn[0]: d.state[0], rn[1]: d.state[1]}
+        if i % 4 == 3 and len(d.state) >= 2:
+            # a sensor whose readings are all linear in each state separately, one of them bilinear in two states: its Jacobian moves with the state
+            rn = gen.fresh_names(ctx.rng, 2, {x.name for x in d.all_symbols()} | {r for rd in d.sensors.values() for r in rd})
+            d.sensors["bilin9"] = {rn[0]: d.state[0] * d.state[1] + d.state[-1], rn[1]: d.state[0] - 2 * d.state[1]}
         process, sensor = eh.make_noises(ctx.rng, d)
         if "direct9" in sensor:
             sensor["direct9"] = {r: v / 64 for r, v in sensor["direct9"].items()}     # precise sensor: correlation matters
